@@ -176,6 +176,9 @@ def main(argv=None):
   ap.add_argument('--no-evidence', action='store_true')
   ap.add_argument('--runs-scale', type=float, default=1.0)
   ap.add_argument('--legs', default='')
+  ap.add_argument('--dump-digests', default='',
+                  help='write {leg#index: digest} JSON (determinism self-test)')
+  ap.add_argument('--hashseed', default='0')
   args = ap.parse_args(argv)
   prop = args.property
   tier = args.tier if args.tier in ('quick', 'thorough') else 'quick'
@@ -229,7 +232,8 @@ def do_check(args, prop, tier, scratch, t_start):
              for i in range(runs)]
     w = max(1, int(total_workers * leg.get('weight', 1) / weight_sum))
     w = min(w, leg.get('max_workers', 16))
-    b = Batch(scratch, leg, prop, tier, pairs, w, args.repo)
+    b = Batch(scratch, leg, prop, tier, pairs, w, args.repo,
+              hashseed=args.hashseed)
     batches.append((leg, b, pairs))
   deadline = time.time() + max(l.get('deadline', 1700) for l in legs)
   for leg, b, pairs in batches:
@@ -278,6 +282,10 @@ def do_check(args, prop, tier, scratch, t_start):
                               'b': r.get('digest')})
     if st_mismatch:
       harness_errors.append(f'determinism self-test failed: {st_mismatch}')
+  if args.dump_digests:
+    with open(args.dump_digests, 'w') as f:
+      json.dump({f"{r['_leg']}#{r['index']}": r.get('digest')
+                 for r in all_results if 'index' in r}, f, indent=0, sort_keys=True)
   # ---- violations
   findings = kernel.load_known_findings()
   mine, cross, known_printed = [], [], []
